@@ -182,6 +182,203 @@ def join_real_threads(ctx, nt):
     ctx.case(case, nontrivial=True)
 
 
+def lifecycle_runs(ctx, nt):
+    """WSDiscovery.start / stop / publish_service / clear_service in any order on ONE node (the networking thread class is
+    replaced by a recording stand-in that behaves like the real one with respect to stop: what it is handed after
+    schedule_stop is dropped): every Hello / Bye has to be handed to a running thread. Compared with the model `UdpLife.run`."""
+    from lxml import etree
+    from sdc11073.wsdiscovery import wsdimpl
+    from sdc11073.xml_types import wsd_types
+    rng = ctx.subrng('life')
+    lines, impls = [], []
+    fixed = [['s', 'p1', 't', 's', 'p2', 't'], ['s', 't', 's', 'p1', 'c1', 't', 't', 's', 'p3'], ['p1', 's', 'c1', 'p1', 'p1', 't']]
+    for k in range(ctx.n(40, 600)):
+        ops = fixed[k] if k < len(fixed) else [rng.choice(['s', 't', 't', f'p{rng.randint(1, 3)}', f'p{rng.randint(1, 3)}', f'c{rng.randint(1, 3)}'])
+                                               for _ in range(rng.randint(2, 12))]
+
+        class Rec:
+            instances = []
+
+            def __init__(self, *a, **k_):
+                self.stopped = False
+                self.handed = []
+                Rec.instances.append(self)
+
+            def start(self):
+                pass
+
+            def schedule_stop(self):
+                self.stopped = True
+
+            def join(self):
+                pass
+
+            def add_outbound_message(self, msg, addr, port, params):
+                out.append('D' if self.stopped else 'A')
+        out = []
+        res = []
+        with mock.patch.object(wsdimpl.networkingthread, 'NetworkingThread', Rec):
+            wsd = wsdimpl.WSDiscovery('127.0.0.1')
+            for op in ops:
+                del out[:]
+                try:
+                    if op == 's':
+                        wsd.start()
+                    elif op == 't':
+                        wsd.stop()
+                    elif op[0] == 'p':
+                        wsd.publish_service(f'urn:uuid:0000000{op[1]}', [etree.QName('http://x', 'T')], wsd_types.ScopesType('http://s/a'),
+                                            ['http://127.0.0.1:1/x'])
+                    else:
+                        wsd.clear_service(f'urn:uuid:0000000{op[1]}')
+                    res.append('[' + ''.join(out) + ']')
+                except Exception as ex:  # noqa: BLE001
+                    res.append('raise' if type(ex).__name__ in ('ApiUsageError', 'KeyError') else f'raise:{type(ex).__name__}')
+        case = {'lifecycle': ops, 'hand_overs': res}
+        if any('D' in r for r in res):
+            ctx.fail('retransmission-loop:count', f'a Hello / Bye was handed to a networking thread that had been stopped (dropped, transmitted 0 times): '
+                     f'{list(zip(ops, res))}', case)
+        if any(r.startswith('raise:') for r in res):
+            ctx.fail('retransmission-loop:raised', f'life cycle call raised: {list(zip(ops, res))}', case)
+        ctx.case(case, nontrivial='s' in ops and any(o[0] == 'p' for o in ops))
+        ctx.count('lifecycle-runs')
+        lines.append('life ' + ' '.join(ops))
+        impls.append((ops, ' '.join(res)))
+    if ctx.driver_ok and lines:
+        for (ops, impl), o in zip(impls, ctx.driver('drv_c15', lines)):
+            if o.strip() != impl:
+                ctx.disagree('life cycle: hand-overs of UdpLife.run == real WSDiscovery with a recording networking thread', {'lifecycle': ops}, o, impl)
+
+
+def failing_send_runs(ctx, nt):
+    """The real `_send_msg` with a socket whose sendto fails (EMSGSIZE, ENETUNREACH, ...), logger = the library's LoggerAdapter
+    (formats eagerly): the send loop has to survive and go on with the other entries."""
+    from sdc11073 import loghelper
+    for err in (OSError(90, 'Message too long'), OSError(101, 'Network is unreachable'), ValueError('verif')):
+        with mock.patch.object(nt.NetworkingThread, '_create_multicast_in_socket', lambda *a, **k: None), \
+                mock.patch.object(nt.NetworkingThread, '_create_multi_out_uni_in_out_socket', lambda *a, **k: None):
+            th = nt.NetworkingThread('127.0.0.1', mock.MagicMock(), loghelper.get_logger_adapter('sdc.verif.c15', 'verif'), 3702, 1)
+        clock = _VClock()
+        attempts = []
+
+        class Sock:
+            def sendto(self, data, addr):
+                attempts.append(clock.now)
+                if len(attempts) == 2:
+                    raise err
+
+        class FakeTime:
+            n = 0
+
+            @staticmethod
+            def time():
+                return clock.now / 1e6
+
+            @staticmethod
+            def sleep(dt):
+                FakeTime.n += 1
+                clock.now += max(1, round(dt * 1e6))
+                if FakeTime.n == 3:
+                    th.schedule_stop()
+                if FakeTime.n > 100000:
+                    raise RuntimeError('send loop does not end')
+        key = mock.MagicMock()
+        key.fileobj = Sock()
+        th._outbound_selector = mock.MagicMock()
+        th._outbound_selector.select = lambda timeout=None: [(key, None)]
+        msg = mock.MagicMock()
+        msg.p_msg.header_info_block.MessageID = 'f-id'
+        msg.serialize.return_value = b'<x/>' * 10
+        p = nt.MULTICAST_REPEAT_PARAMS
+        raised = None
+        with mock.patch.object(nt, 'time', FakeTime), mock.patch.object(nt.random, 'randint', lambda a, b: a), \
+                mock.patch.object(nt.random, 'randrange', lambda a, b=None: a):
+            th.add_outbound_message(msg, '239.255.255.250', 3702, p)
+            try:
+                th._run_send()
+            except Exception as ex:  # noqa: BLE001
+                raised = repr(ex)
+        case = {'failing_send': repr(err), 'attempts': len(attempts), 'expected': 1 + p.repeat}
+        if raised or len(attempts) != 1 + p.repeat:
+            ctx.fail('retransmission-loop:count', f'sendto fails once with {err!r}: the send loop made {len(attempts)} of {1 + p.repeat} '
+                     f'transmission attempts{" and died with " + raised if raised else ""}', case)
+        ctx.case(case, nontrivial=True)
+        ctx.count('failing-send-runs')
+
+
+def stop_race_runs(ctx, nt):
+    """`stop()` (Bye enqueued, then schedule_stop) between two reads of the send loop's condition: forced at every call of
+    queue.empty() and quit.is_set() of the first iterations. Nothing that was enqueued before the stop may be left behind."""
+    for point in ('empty', 'is_set'):
+        for k in (1, 2, 3, 4):
+            th = _mk_thread()[1]
+            clock = _VClock()
+            sent = []
+            calls = {'n': 0, 'fired': False}
+            msg = mock.MagicMock()
+            msg.p_msg.header_info_block.MessageID = 'race-id'
+            p = nt.MULTICAST_REPEAT_PARAMS
+
+            def fire():
+                if not calls['fired']:
+                    calls['fired'] = True
+                    th.add_outbound_message(msg, '239.255.255.250', 3702, p)
+                    th.schedule_stop()
+
+            class Q(queue.PriorityQueue):
+                def empty(self):
+                    r = super().empty()        # the value the loop sees was read BEFORE the other thread acted
+                    if point == 'empty':
+                        calls['n'] += 1
+                        if calls['n'] == k:
+                            fire()
+                    return r
+
+            class Ev(threading.Event):
+                def is_set(self):
+                    r = super().is_set()
+                    if point == 'is_set':
+                        calls['n'] += 1
+                        if calls['n'] == k:
+                            fire()
+                    return r
+            th._send_queue = Q(10000)
+            th._quit_send_event = Ev()
+
+            class FakeTime:
+                n = 0
+
+                @staticmethod
+                def time():
+                    return clock.now / 1e6
+
+                @staticmethod
+                def sleep(dt):
+                    FakeTime.n += 1
+                    clock.now += max(1, round(dt * 1e6))
+                    if FakeTime.n > 5000:
+                        fire()
+                    if FakeTime.n > 100000:
+                        raise RuntimeError('send loop does not end')
+            key = mock.MagicMock()
+            th._outbound_selector = mock.MagicMock()
+            th._outbound_selector.select = lambda timeout=None: [(key, None)]
+            th._send_msg = lambda q_msg, sock: sent.append(q_msg.repeat)
+            with mock.patch.object(nt, 'time', FakeTime), mock.patch.object(nt.random, 'randint', lambda a, b: b), \
+                    mock.patch.object(nt.random, 'randrange', lambda a, b=None: a):
+                try:
+                    th._run_send()
+                except Exception as ex:  # noqa: BLE001
+                    ctx.fail('retransmission-loop:raised', repr(ex), {'stop_race': [point, k]})
+                    continue
+            case = {'stop_race': [point, k], 'transmitted': sorted(sent), 'left_on_queue': th._send_queue.qsize()}
+            if calls['fired'] and len(sent) != 1 + p.repeat:
+                ctx.fail('retransmission-loop:count', f'stop() right at call {k} of {point}() of the send loop: {len(sent)} of {1 + p.repeat} '
+                         f'transmissions, {th._send_queue.qsize()} entries left on the queue when the loop ended', case)
+            ctx.case(case, nontrivial=True)
+            ctx.count('stop-race-runs')
+
+
 def outbound_order(nt, on_put=None):
     """program order of `register own id` / `put on the send queue` inside the real add_outbound_message (multicast set)"""
     th = _mk_thread()[1]
@@ -341,6 +538,9 @@ def run(ctx):
     run_send_loop(ctx, nt)
     run_register_race(ctx, nt)
     extreme_draw_runs(ctx, nt)
+    lifecycle_runs(ctx, nt)
+    failing_send_runs(ctx, nt)
+    stop_race_runs(ctx, nt)
     # ---- glue: every sender hands over the parameter set of its destination
     for name, mc, ps in sender_table(nt):
         want = nt.MULTICAST_REPEAT_PARAMS if mc else nt.UNICAST_REPEAT_PARAMS
@@ -627,6 +827,12 @@ def search(ctx):
             return
     run_register_race(ctx, nt)
     extreme_draw_runs(ctx, nt)
+    ok_before = ctx.driver_ok
+    ctx.driver_ok = False
+    lifecycle_runs(ctx, nt)
+    ctx.driver_ok = ok_before
+    failing_send_runs(ctx, nt)
+    stop_race_runs(ctx, nt)
     if ctx.failures:
         return
     join_real_threads(ctx, nt)
@@ -677,6 +883,13 @@ def replay(ctx, obj):
         run_send_loop(c2, nt, [case['loop_script']])
         for f in c2.failures:
             print('  ', f['signature'], f['detail'])
+        return bool(c2.failures)
+    if 'lifecycle' in case or 'failing_send' in case or 'stop_race' in case:
+        c2 = core.Ctx('C15', 'quick', 0)
+        c2.driver_ok = False
+        (lifecycle_runs if 'lifecycle' in case else failing_send_runs if 'failing_send' in case else stop_race_runs)(c2, nt)
+        for f in c2.failures:
+            print('  ', f['signature'], f['detail'][:300])
         return bool(c2.failures)
     if 'extreme_draws' in case or 'join_real_threads' in case:
         c2 = core.Ctx('C15', 'quick', 0)
